@@ -694,10 +694,25 @@ class Interp:
         return Const("<str>")
 
     def e_Tuple(self, n, env):
-        return ListV(items=tuple(self._elts(n.elts, env)), kind="tuple")
+        return self._display(n, env, "tuple")
 
     def e_List(self, n, env):
-        return ListV(items=tuple(self._elts(n.elts, env)), kind="list")
+        return self._display(n, env, "list")
+
+    def _display(self, n, env, kind):
+        try:
+            return ListV(items=tuple(self._elts(n.elts, env)), kind=kind)
+        except _AbstractDisplay:
+            out = ListV(items=(), kind=kind)
+            for e in n.elts:
+                if isinstance(e, ast.Starred):
+                    part = self.ops.to_list(self.eval(e.value, env), kind, e)
+                else:
+                    part = ListV(items=(self.eval(e, env),), kind=kind)
+                if not isinstance(part, ListV):
+                    return self.unknown("starred display of non-sequence", n)
+                out = part if (out.items is not None and len(out.items) == 0) else self.ops.concat_lists(out, part, n)
+            return out
 
     def e_Set(self, n, env):
         return self.ops.make_set([self.eval(e, env) for e in n.elts], n)
